@@ -166,7 +166,12 @@ class ModbusAsciiFramer(ModbusFramer):
         single = kwargs.get('single', False)
         self.addToFrame(data)
         while self.isFrameReady():
-            if self.checkFrame():
+            try:
+                valid = self.checkFrame()
+            except ValueError:
+                # characters that are not hexadecimal digits: a damaged frame
+                valid = False
+            if valid:
                 if self._validate_unit_id(unit, single):
                     frame = self.getFrame()
                     result = self.decoder.decode(frame)
@@ -178,9 +183,19 @@ class ModbusAsciiFramer(ModbusFramer):
                 else:
                     _logger.error("Not a valid unit id - {}, "
                                   "ignoring!!".format(self._header['uid']))
-                    self.resetFrame()
+                    # skip this frame only, keep what follows it
+                    self.advanceFrame()
             else:
-                break
+                start = self._buffer.find(self._start)
+                if start == -1:
+                    # nothing but noise so far
+                    self.resetFrame()
+                    break
+                if self._buffer.find(self._end, start) == -1:
+                    # the frame is not complete yet: wait for the rest
+                    break
+                # a complete frame that failed its check: drop this frame only
+                self.advanceFrame()
 
     def buildPacket(self, message):
         """ Creates a ready to send modbus packet
